@@ -84,7 +84,7 @@ def qeNum : Num QE where
   powNat a n :=
     -- astronomically large exact powers are not computed: the value is marked "not representable"
     -- (only representable values are ever compared exactly)
-    if (a.q.num.natAbs.log2 + a.q.den.log2 + 2) * n > 2000000 then ⟨0, false⟩
+    if (a.q.num.natAbs.log2 + a.q.den.log2 + 2) * n > 300000 then ⟨0, false⟩
     else QE.mk' (ratPowNat a.q n) a.rep
   rpow x y :=
     if y.q == 0 then pure ⟨1, x.rep && y.rep⟩
